@@ -49,6 +49,15 @@ out.append("|---|---|---|---|")
 es = []
 for f in sorted(glob.glob(os.path.join(ROOT, "known_findings.d", "*.json"))):
     es += json.load(open(f))
+# one-file view of known_findings.d (the check reads the directory first; this file is for readers):
+# each entry carries the line form  "known: property=<id> <what fails>"  /  "fixed: property=<id> <commit> <what failed>"
+agg = []
+for e in es:
+    e2 = dict(e)
+    w = " ".join(str(e.get("what", "")).split())
+    e2["line"] = ("fixed: property=%s %s %s" % (e["property"], e.get("commit", "?"), w)) if e["status"] == "fixed" else ("known: property=%s %s" % (e["property"], w))
+    agg.append(e2)
+json.dump(agg, open(os.path.join(ROOT, "known_findings.json"), "w"), indent=1, ensure_ascii=False)
 for e in es:
     what = e["what"].replace("|", "\\|").replace("\n", " ")
     if len(what) > 230:
@@ -56,9 +65,14 @@ for e in es:
     out.append("| %s | %s | %s | %s |" % (e["id"], "repaired" if e["status"] == "fixed" else "recorded", e.get("commit", ""), what))
 
 out.append("\n### 11.3 Seeded breaking changes (written by fresh sub-agents that saw only the property text) and what catches them\n")
-out.append("Each was confirmed by `tools/keepseed.py` in scratch worktrees: patch applies, tree builds, existing tests pass, the demonstration fails with the change and passes without. `failing input` = the check exits 1 with a concrete replay; `obligation` = a proof or translator obligation breaks and no failing input was found (`no-failing-input-found`).\n")
+out.append("Each was confirmed by `tools/keepseed.py` in scratch worktrees: patch applies, tree builds, existing tests pass, the demonstration fails with the change and passes without. `failing input` = the check exits 1 with a concrete replay; `obligation` = a proof or translator obligation breaks and no failing input was found (`no-failing-input-found`). `meta.json` of a seed records the /repo commit its patch applies to (`applies_to`, maintained by `tools/seedbase.py`); a seed whose lines were later touched by a `fix:` commit was re-applied by hand on the then-current HEAD where that was possible (noted), and one (a second round-2 change for C14: a minimum of one block for small stacked segments) was dropped because the repair of C14-stacked-negative made its demonstration pass.\n")
 out.append("| Seed | Property | What the change does | Needs | Caught by `./check <id> quick` |")
 out.append("|---|---|---|---|---|")
+NOTES = {}
+try:
+    NOTES = json.load(open(os.path.join(ROOT, "seeded", "NOTES.json")))
+except Exception:
+    pass
 for d in sorted(glob.glob(os.path.join(ROOT, "seeded", "*"))):
     mf = os.path.join(d, "meta.json")
     if not os.path.exists(mf):
@@ -69,8 +83,9 @@ for d in sorted(glob.glob(os.path.join(ROOT, "seeded", "*"))):
         s = str(s).replace("|", "\\|").replace("\n", " ")
         return s if len(s) <= n else s[:n] + "…"
     caught = "NO" if not v.get("caught") else ("yes — failing input" if v.get("caught_with_failing_input") else "yes — obligation (" + cut(re.sub(r".*no longer checks: ", "", v.get("check_output", ""), flags=re.S).strip(), 60) + ")")
-    if m.get("caught_note"):
-        caught += "; " + m["caught_note"]
+    note = NOTES.get(os.path.basename(d)) or m.get("caught_note")
+    if note:
+        caught += "; " + note
     out.append("| %s | %s | %s | %s | %s |" % (os.path.basename(d), m.get("breaks_property", m.get("property")), cut(m.get("what_it_breaks", ""), 260), cut(m.get("needs_to_manifest", ""), 200), caught))
 
 status = "\n".join(out) + "\n"
